@@ -48,11 +48,38 @@ def segs_sexp(segs):
         for off, sup, ps in segs) + ")"
 
 
+def wish_sexp(w):
+    """a wish: falsy keep, ("l", score) lower the score, other truthy drop."""
+    if isinstance(w, tuple):
+        return "(l %s)" % rat(w[1])
+    return "1" if w else "0"
+
+
+def parse_wish(tok):
+    if isinstance(tok, list):
+        return ("l", float(parse_rat(tok[1])))
+    return tok == "1"
+
+
 def sched_sexp(sched):
-    """sched: list of (mask, supports, skip)."""
-    return "(" + " ".join(
-        "((%s) %d %d)" % (" ".join("1" if b else "0" for b in mask), 1 if sup else 0, skip)
-        for mask, sup, skip in sched) + ")"
+    """sched: list of (mask, supports, skip[, skipmask])."""
+    out = []
+    for st in sched:
+        s = "((%s) %d %d" % (" ".join(wish_sexp(b) for b in st[0]), 1 if st[1] else 0, st[2])
+        if len(st) > 3:
+            s += " (%s)" % " ".join(wish_sexp(b) for b in st[3])
+        out.append(s + ")")
+    return "(" + " ".join(out) + ")"
+
+
+def parse_sched(lst):
+    out = []
+    for st in lst:
+        t = ([parse_wish(b) for b in st[0]], st[1] == "1", int(st[2]))
+        if len(st) > 3:
+            t = t + ([parse_wish(b) for b in st[3]],)
+        out.append(t)
+    return out
 
 
 # ------------------------------------------------------------------------------------------------
@@ -70,6 +97,7 @@ class SchedCtl(object):
         self.log = []           # thresholds in call order
         self.replaced = 0
         self.skipped = 0
+        self.lowered = 0        # how many times a pending posting got a strictly lower score
 
     def step(self):
         if self.it < len(self.sched):
@@ -117,25 +145,42 @@ def make_matcher_class():
             ctl = self.ctl
             ctl.log.append(minquality)
             ctl.dirty = True
-            mask, sup, _ = ctl.step()
+            st = ctl.step()
+            self.ps = self._apply(st[0], minquality)
+            self.supports = st[1]
+            return self
+
+        def _apply(self, mask, minquality):
+            """One wish per pending posting: 0 keep, 1 drop, ("l", s) lower the score to s — honoured
+            only for postings at or below a non-zero threshold, and a score is never raised (the C12
+            contract: `Keeps` = kept intact or `Dominated`)."""
             out = []
             for i, p in enumerate(self.ps):
-                if i < len(mask) and mask[i] and p[1] <= minquality:
-                    continue
+                # a threshold of 0 is "no threshold" (every whoosh replace() tests `if minquality and ...`)
+                if minquality and i < len(mask) and mask[i] and p[1] <= minquality:
+                    w = mask[i]
+                    if isinstance(w, tuple):
+                        if w[1] <= p[1]:
+                            if w[1] < p[1]:
+                                self.ctl.lowered += 1
+                            p = (p[0], w[1], p[2])
+                    else:
+                        continue
                 out.append(p)
-            self.ps = out
-            self.supports = sup
-            return self
+            return out
 
         def skip_to_quality(self, minquality):
             ctl = self.ctl
             ctl.log.append(minquality)
             ctl.dirty = True
-            _, _, skip = ctl.step()
+            st = ctl.step()
+            skip = st[2]
             n = 0
             while n < skip and self.ps and self.ps[0][1] <= minquality:
                 self.ps.pop(0)
                 n += 1
+            if len(st) > 3:
+                self.ps = self._apply(st[3], minquality)
             return n
 
         def all_ids(self):
@@ -257,12 +302,21 @@ def gen_world(rng, maxseg=4, maxpost=12, positive=True):
         total += n
     steps = total + nseg + 2
     sched = []
+
+    def wishes():
+        # keep / drop / lower the score (a union that skipped one of its sub-matchers past the document)
+        out = []
+        for _ in range(rng.randint(0, 8)):
+            x = rng.random()
+            out.append(True if x < 0.3 else (("l", rng.choice(pool)) if x < 0.45 else False))
+        return out
+
     for _ in range(steps):
-        if rng.random() < 0.55:
-            mask = [rng.random() < 0.35 for _ in range(rng.randint(0, 8))]
-        else:
-            mask = []
-        sched.append((mask, rng.random() < 0.9, rng.choice([0, 0, 1, 1, 2, 3, 6])))
+        mask = wishes() if rng.random() < 0.55 else []
+        st = (mask, rng.random() < 0.9, rng.choice([0, 0, 1, 1, 2, 3, 6]))
+        if rng.random() < 0.3:
+            st = st + (wishes(),)
+        sched.append(st)
     return segs, sched
 
 
